@@ -31,7 +31,7 @@ Log(op, b, s) == hist' = Append(hist, [op |-> op, b |-> b, s |-> s, ok |-> TRUE,
 AllocStep(s) ==
     /\ Cardinality(DOMAIN live) < MaxLive
     /\ LET b == nb + 1  v == Units(s) IN
-       /\ AllocOk(b, v, v, 1, 0, 100 * b, 100 * b + v, None, None)
+       /\ AllocOk(b, v, v, 1, 0, 100 * b, 100 * b + v, None, None, None)
        /\ nb' = b
        /\ Log("alloc", b, s)
 
